@@ -188,6 +188,9 @@ HIST_OPS = {
     'call': None, 'S1': None,
     'fix_p0': {'p0': 1.3}, 'fix_p1': {'p1': 0.7}, 'fix_sb': {'Sigma base': 0.45},
     'rel_p0': {'p0': None}, 'swap': {'p0': None, 'p1': 0.9},
+    # the fixed error parameter swapped for the other one in a single call
+    'fix_sr': {'Sigma rel.': 0.25}, 'swap_err': {'Sigma base': None,
+                                                 'Sigma rel.': 0.2},
     'fix_all_mech': {'p0': 1.1, 'p1': 0.6}}
 
 
@@ -553,3 +556,7 @@ META = {
     'level_note': 'Toy closed-form bottom level; finite alphabets of generic values; '
                   'finite-difference tolerance 2e-5.',
 }
+META['level_text'] += (
+    ' Also: filter posteriors with regular dimensions between pooled / heterogeneou'
+    's blocks, every error parameter on its boundary, swaps of the fixed error para'
+    'meter in one call.')
